@@ -237,7 +237,7 @@ def check_unlocated(ctx, schema, base, stream, label, text, located_ast, located
                      "verdict on the located parse of the same text", dict(base, unlocated=kind, located=located_msgs[:5], got=msgs[:5]))
 
 
-def one_document(ctx, schema, holder, dump, sdl, enum_kind, label, text, variables, opname, lean_batch, stream):
+def one_document(ctx, schema, holder, dump, sdl, enum_kind, label, text, variables, opname, lean_batch, stream, seeds=None):
     from py_gql.lang import parse
     from py_gql.exc import GraphQLSyntaxError
     from py_gql.validation import validate_ast
@@ -284,10 +284,11 @@ def one_document(ctx, schema, holder, dump, sdl, enum_kind, label, text, variabl
     ctx.stat(stream + ":accepted")
     if label:
         ctx.stat("accepted-adversarial:" + label)
-    for k in range(6 if (label or "").startswith(("same-key", "untyped-inline", "merge-safe")) else 2):
+    for k in range(len(seeds) if seeds is not None else 6 if (label or "").startswith(("same-key", "untyped-inline", "merge-safe")) else 2):
         c = K.Case()
         c.sdl, c.enum_kind, c.text, c.variables, c.opname = sdl, enum_kind, text, variables, opname
-        c.seed, c.mode, c.features = rng.randint(0, 10 ** 6), 0, set()
+        # `seeds`: a named probe with FIXED worlds (deterministic class: independent of what consumed ctx.rng before)
+        c.seed, c.mode, c.features = (seeds[k] if seeds is not None else rng.randint(0, 10 ** 6)), 0, set()
         c.impl = c.docj = c.coerced = None
         try:
             st = K.run_one(schema, holder, dump, c)
@@ -611,11 +612,37 @@ def fragment_chain(ctx, schema):
             ctx.fail("fragment-chain-rejected:%d" % n, "a valid chain of fragments is rejected", {"sdl": FIXED_SDL, "fragments": n})
 
 
+# One AST field node executed against SEVERAL runtime object types in one request, whose own definitions of the interface
+# field declare DIFFERENT arguments / defaults (valid: extra optional arguments, other defaults). Every runtime type must
+# get the arguments of ITS field definition (per-execution caches keyed by the node alone serve the first type's to all:
+# seeded C05-2 / C04-1). Worlds are fixed seeds, so the class does not depend on the random streams.
+DIVERGENT_SDL = ("type Query { pets: [Pet!]!, pet: Pet, mix: [U] }\n"
+                 "interface Pet { name(up: Boolean = false): String, kin(n: Int = 1): [Pet] }\n"
+                 "type Dog implements Pet { name(up: Boolean = true, extra: Int = 3): String, kin(n: Int = 2, deep: Boolean = false): [Pet], bark: Int }\n"
+                 "type Cat implements Pet { name(up: Boolean = false): String, kin(n: Int = 1): [Pet], lives: Int! }\n"
+                 "type Eel implements Pet { name(up: Boolean = false, volts: Float = 1.5, tag: String = \"e\"): String, kin(n: Int = 7): [Pet] }\n"
+                 "union U = Dog | Cat | Eel\n")
+DIVERGENT = [
+    ("divergent-args-defaults", "{ pets { __typename name } }", {}),
+    ("divergent-args-literal", "{ pets { __typename n: name(up: true) } }", {}),
+    ("divergent-args-variable", "query($u: Boolean){ pets { name(up: $u) } }", {"u": False}),
+    ("divergent-args-inline", "{ pets { ... on Pet { name } } }", {}),
+    ("divergent-args-fragment", "{ pets { __typename ...F } } fragment F on Pet { n: name }", {}),
+    ("divergent-args-nested-list", "{ pets { kin { name kin(n: 3) { name } } } }", {}),
+    ("divergent-args-union", "{ mix { ... on Pet { name } } }", {}),
+    ("divergent-args-merged-nodes", "{ pets { name ... on Dog { name(up: true) bark } } }", {}),
+]
+DIVERGENT_SEEDS = [0, 1, 2, 3, 5, 8, 13, 21]
+
+
 def fixed_cases(ctx, lean_batch):
     schema, holder, dump = X.build(FIXED_SDL, 0)
     fragment_chain(ctx, schema)
     for label, text, vs in FIXED:
         one_document(ctx, schema, holder, dump, FIXED_SDL, 0, label, text, vs, None, lean_batch, "fixed")
+    schema, holder, dump = X.build(DIVERGENT_SDL, 0)
+    for label, text, vs in DIVERGENT:
+        one_document(ctx, schema, holder, dump, DIVERGENT_SDL, 0, label, text, vs, None, lean_batch, "fixed", seeds=DIVERGENT_SEEDS)
 
 
 def flush_lean(ctx, batch):
